@@ -13,6 +13,7 @@ CONSTANTS
   DPM = 2
   Backends <- EsOnly
   Faults <- BothFaults
+  StoreOnce = FALSE
   Ops <- AllOps
   Mismatch = FALSE
   NameFilterSound = TRUE
